@@ -7584,6 +7584,15 @@ fn random_rtc_id() -> String {
     )
 }
 
+/// Verification hook (additive, off unless `--cfg rustrtc_verif`): access to the live SCTP
+/// transport of a full PeerConnection (C17: peer SCTP ABORT / SHUTDOWN events).
+#[cfg(rustrtc_verif)]
+impl PeerConnection {
+    pub fn verif_sctp(&self) -> Option<Arc<SctpTransport>> {
+        self.inner.sctp_transport.lock().clone()
+    }
+}
+
 #[cfg(test)]
 impl PeerConnection {
     /// Expose the ICE transport for state manipulation in unit tests.
